@@ -149,12 +149,16 @@ def community_louvain(W, gamma=1, ci=None, B='modularity', seed=None):
 
     if B == 'modularity':
         B = W - gamma * np.outer(np.sum(W, axis=1), np.sum(W, axis=0)) / s
+        B = (B + B.T) / 2  # symmetrize (directed input)
     elif B == 'potts':
         B = W - gamma * np.logical_not(W)
+        B = (B + B.T) / 2
     elif B == 'negative_sym':
         B = (B0 / (s0 + s1)) - (B1 / (s0 + s1))
+        B = (B + B.T) / 2
     elif B == 'negative_asym':
         B = (B0 / s0) - (B1 / (s0 + s1))
+        B = (B + B.T) / 2
     else:
         try:
             B = np.array(B)
